@@ -225,7 +225,8 @@ class Application:
         logger.info(f"{self} application started")
 
     def stop(self):
-        for waiting in self._answer_waiting.values():
+        # a released caller removes its own entry, so iterate over a copy
+        for waiting in list(self._answer_waiting.values()):
             waiting.event.set()
         logger.info(f"{self} application stopped")
 
